@@ -23,6 +23,8 @@ ENTRIES = [(REL, "FSA." + m) for m in (
 def run(ctx):
     ctx.do(F.rule_v1)
     ctx.do(F.rule_dc1)
+    ctx.do(F.rule_vrow1)
+    ctx.do(MI.rule_invmap1, ["geometry_tools/automata/fsa.py", "geometry_tools/automata/kbmag_utils.py"])
     ctx.do(F.rule_v2)
     ctx.do(F.rule_b1)
     # N1 only for the construction / edit methods the statement names (the
@@ -48,6 +50,7 @@ def run(ctx):
     ctx.do(NP.rule_mc1, [SI.FSA])
     ctx.do(SI.rule_acc1, [SI.FSA])
     ctx.do(MI.rule_ofs1)
+    ctx.do(MI.rule_ret1, ["geometry_tools/automata/fsa.py"])
     ctx.do(u1, ENTRIES, min_functions=25)
     ctx.r.assume("set-based model equality over histories and the GAP "
                  "parser's string semantics are not decided (numerical / "
